@@ -1,6 +1,8 @@
 package config
 
 import (
+	"fmt"
+
 	"github.com/temporalio/s2s-proxy/collect"
 	"github.com/temporalio/s2s-proxy/encryption"
 )
@@ -63,6 +65,14 @@ const (
 func (config *StringTranslator) AsLocalToRemoteBiMap() (collect.StaticBiMap[string, string], error) {
 	if config.cachedBiMap != nil {
 		return config.cachedBiMap, nil
+	}
+	for _, mapping := range config.Mappings {
+		// An empty name is not a namespace. Mapping a name to "" also cannot be undone on the way back: fields holding
+		// the empty name are treated as unset (e.g. a history event whose only namespace is an empty link namespace is
+		// skipped by the translator), so the original name would not be restored.
+		if mapping.Local == "" || mapping.Remote == "" {
+			return nil, fmt.Errorf("invalid namespace translation mapping (local=%q, remote=%q): names must not be empty", mapping.Local, mapping.Remote)
+		}
 	}
 	mapping, err := collect.NewStaticBiMap(func(yield func(string, string) bool) {
 		for _, mapping := range config.Mappings {
